@@ -28,9 +28,9 @@ Indistinguishable == (started /\ Comparable) => (samples = samplesB /\ gsum = gs
 TotalForceSame == (started /\ Comparable /\ relB > 0 /\ rel > 0) => ft = ftB
 \* the comparison only involves the two mechanisms: the history variables are hidden from the state identity
 PView == <<mech, mechB, p, resumes>>
-WitInit == TLCSet(1, FALSE)
-Wit == (resumes > 0 /\ relB > 1 /\ abfFB # 0) => TLCSet(1, TRUE)
-WitPost == TLCGet(1)
-PInitW == PInit /\ WitInit
+\* vacuity witnesses: the check searches a state satisfying each Witness<i> (a violation of NoWitness<i>)
+Witness1 == resumes > 0 /\ relB > 1 /\ abfFB # 0
+NoWitness1 == ~Witness1
+PInitW == PInit
 PSpecW == PInitW /\ [][PNext]_pvars
 =============================================================================
